@@ -685,7 +685,7 @@ impl CompositionGraph {
         }
 
         // Ensure that the given name is a valid extern name
-        ComponentName::new(&name, 0).map_err(|e| {
+        let parsed = ComponentName::new(&name, 0).map_err(|e| {
             let msg = e.to_string();
             DefineTypeError::InvalidExternName {
                 name: name.to_string(),
@@ -695,6 +695,18 @@ impl CompositionGraph {
                 ),
             }
         })?;
+
+        // The definition is exported under its name: like `export`, refuse
+        // the names that only imports may have
+        if let ComponentNameKind::Hash(_)
+        | ComponentNameKind::Url(_)
+        | ComponentNameKind::Dependency(_) = parsed.kind()
+        {
+            return Err(DefineTypeError::InvalidExternName {
+                name: name.to_string(),
+                source: anyhow::anyhow!("export name cannot be a hash, url, or dependency"),
+            });
+        }
 
         let mut node = Node::new(NodeKind::Definition, ItemKind::Type(ty), None);
         node.export = Some(name.clone());
